@@ -661,6 +661,10 @@ next:
 			for _, queries := range p.enclosingAtMedia {
 				if css_ast.MediaQueriesEqual(r.Queries, queries, nil) {
 					mangledRules = append(mangledRules, r.Rules...)
+
+					// The next rule now follows the last unwrapped rule, so that is
+					// the only rule it may be merged with
+					prevNonComment = r.Rules[len(r.Rules)-1].Data
 					continue next
 				}
 			}
